@@ -112,7 +112,22 @@ func chainOf(fullService string) string {
 	if len(p) != 3 {
 		return ""
 	}
+	if p[0] == relayHubID {
+		return "default_union_pier_id" // a service on another BitXHub is reached through the union pier
+	}
 	return p[1]
+}
+
+func proofClass(note string) string {
+	for _, c := range []string{"proof-absent", "proof-hash-mismatch", "proof-refused-by-bit-rule", "proof-refused-by-fabsim-rule"} {
+		if strings.Contains(note, c) {
+			return c
+		}
+	}
+	if strings.Contains(note, "signers=") {
+		return "too-few-validator-signatures"
+	}
+	return "other"
 }
 
 func counterHas(meta *pb.InterchainMeta, chain string, txIndex int) int {
@@ -148,12 +163,20 @@ func (m *ibtpModel) afterBlock(h uint64, txs []*pb.BxhTransaction, metas []*txMe
 	s := m.s
 	for i, tx := range txs {
 		ib := tx.IBTP
+		mt := metas[i]
+		if ib == nil && mt.kind == "entry" {
+			ib = mt.ibtp
+		}
 		if ib == nil || i >= len(ref.Receipts) {
 			continue
 		}
-		mt := metas[i]
 		rc := ref.Receipts[i]
 		accepted := rc.Status == pb.Receipt_SUCCESS
+		if mt.kind == "entry" && accepted {
+			s.vio("C03", "unverified-entry-point", strings.Split(mt.note, "/")[0], "block %d tx %d: a plain invocation of %s by an external account made the interchain contract process IBTP %s-%s-%d without any proof check", h, i, mt.note, ib.From, ib.To, ib.Index)
+			s.vio("C17", "unprivileged-ibtp-processing", strings.Split(mt.note, "/")[0], "block %d tx %d: a plain invocation of %s processed IBTP %s-%s-%d", h, i, mt.note, ib.From, ib.To, ib.Index)
+			s.res.Count("probe_entry_point_accepted")
+		}
 		pm := m.pair(ib.From, ib.To)
 		id := fmt.Sprintf("%s-%s-%d", ib.From, ib.To, ib.Index)
 		if ib.Group != nil {
@@ -169,8 +192,8 @@ func (m *ibtpModel) afterBlock(h uint64, txs []*pb.BxhTransaction, metas []*txMe
 			continue
 		}
 		s.res.Count("ibtp_accepted")
-		if !mt.proofOK {
-			s.vio("C03", "unverified-ibtp-accepted", mt.note, "block %d tx %d: IBTP %s was accepted although its proof is %s", h, i, id, mt.note)
+		if !mt.proofOK && mt.kind != "entry" {
+			s.vio("C03", "unverified-ibtp-accepted", proofClass(mt.note), "block %d tx %d: IBTP %s was accepted although its proof is %s", h, i, id, mt.note)
 		}
 		if ib.Category() == pb.IBTP_REQUEST {
 			if !pm.batch && ib.Index != pm.reqAccepted+1 {
